@@ -634,7 +634,8 @@ def gen_op(rng, world, sim, n):
     nheld = len(mod.order)
     if kind == "add_inst":
         ar = rng.choice(unused)
-        return {"op": kind, "net": n, "uid": ar["uid"], "altice": rng.random() < 0.15}
+        mixed_side = any(W.is_ice(x) for x in ar["R"] + ar["P"]) and (len(ar["R"]) > 1 or len(ar["P"]) > 1)
+        return {"op": kind, "net": n, "uid": ar["uid"], "altice": rng.random() < (0.5 if mixed_side else 0.15)}
     if kind == "add_str":
         cands = [(ar, W.formats_for(cfgname, ar)) for ar in unused]
         cands = [(ar, f) for ar, f in cands if f]
